@@ -6,7 +6,7 @@
 cd "$(dirname "$0")/.."
 # expected `no-failing-input-found`: harmless ties (first three) and changes that only a model-vs-code break shows because
 # the property-level spec is deliberately silent there (Decimal underflow, dirty snapshots, the 0/0 panic of a zero-price fill)
-HARMLESS="C01_tie_open C09_balance_tie C12W_binary_lossy_payload C03R_notional_underflow_is_none C06E_upsert_linear_search_first_equal C20E_pnl_return_division_guarded C20E_dom_buy_rebate_clamped"
+HARMLESS="C01_tie_open C09_balance_tie C12W_binary_lossy_payload C03R_notional_underflow_is_none C06E_upsert_linear_search_first_equal C20E_pnl_return_division_guarded C20E_dom_buy_rebate_clamped C07_cfg_close_drain C11_cfg_mock_exchange_future_replaced"
 export VMUT_DIR=${VMUT_DIR:-/tmp/vmut_selftest}
 run() { # name patch prop expect
   out=$(tools/mutant.sh "$2" "$3" 2>&1)
